@@ -620,7 +620,7 @@ static int others_all_blocked(int self);
 /* a held thread is not given the baton for a while (as if the OS had preempted it): set when one of its
  * fibers was made runnable before its context switch completed, so that the race can actually play out */
 static uint64_t hold_until[MAXT];
-static uint64_t n_wakeups_seen;
+static uint64_t n_wakeups_seen, n_saving_wakeups;
 static __thread int arm_rmw, arm_steps, arm_fire; /* directed stalls, see sim_stall_after_rmw */
 static int runnable(int i) {
   if (hold_until[i] > g_steps && T[i].st == ST_RUN) return 0;
@@ -1422,6 +1422,7 @@ typedef struct {
   uint32_t schedules;
   int q_owner;          /* kernel thread that owns the run queue currently holding it (-1: none / unknown) */
   uint64_t q_pushed_at; /* fiber switches on that thread when it was pushed there */
+  int null_next;        /* consecutive times the owning thread's scheduler returned nothing while this fiber was ready in its queue */
   int q_prev_owner;     /* the previous push: same thread, and the fiber has not run since? then the wait goes on */
   uint32_t q_prev_sw;
 } gf_t;
@@ -1576,6 +1577,13 @@ void __wrap_fiber_scheduler_schedule(void* s, void* f) {
   if (sim_active && me >= 0 && fiber_mode) {
     int i = gidx(f);
     if (G[i].pend) sim_violation("C02-scheduled-twice", "fiber #%d made runnable while an earlier wake-up is still queued", i);
+    if (G[i].g == G_RUNNING && G[i].on != me && G[i].on >= 0 && glue_fiber_state(f) == 5 && (++n_saving_wakeups & 3) == 0) {
+      /* woken while its own thread is still switching away from it, which the library handles (the fiber is marked
+       * as saving): every fourth time that thread is kept off the baton for a while, so that the waker's thread
+       * has to live with a queued fiber it cannot run yet */
+      hold_until[G[i].on] = g_steps + 1500;
+      sim_probe("woken_while_saving_thread_held", 1);
+    }
     if (G[i].g == G_RUNNING && G[i].on != me && G[i].on >= 0 && glue_fiber_state(f) != 5 /* SAVING_STATE_TO_WAIT */) {
       /* made runnable (and visible to every scheduler) while it still executes and is not marked as saving:
        * not a verdict, but worth pursuing - keep its kernel thread off the baton for a while */
@@ -1611,7 +1619,21 @@ void __wrap_fiber_scheduler_schedule(void* s, void* f) {
 }
 void* __wrap_fiber_scheduler_next(void* s) {
   void* f = __real_fiber_scheduler_next(s);
+  if (sim_active && me >= 0 && fiber_mode && !f) {
+    /* C10: the scheduler found nothing to run. A fiber whose suspension is complete and which sits in this
+     * thread's own run queue must be offered; being passed over once can happen (a batch that held only fibers
+     * still being saved elsewhere), being passed over again and again cannot */
+    for (int i = 0; i < ng; i++)
+      if (G[i].inq && G[i].q_owner == me && G[i].g == G_SAVED && glue_fiber_state(G[i].f) != 5 /* SAVING_STATE_TO_WAIT */) {
+        if (++G[i].null_next > 16)
+          sim_violation("C10-ready-fiber-not-offered", "fiber #%d is ready and queued on kernel thread %d, whose scheduler has reported 'nothing to run' %d times in a row", i, me,
+                        G[i].null_next);
+      } else if (G[i].q_owner == me)
+        G[i].null_next = 0;
+  }
   if (sim_active && me >= 0 && fiber_mode && f) {
+    gf_t* gg = &G[gidx(f)];
+    gg->null_next = 0;
     int i = gidx(f);
     if (!G[i].pend) sim_violation("C02-handed-out-twice", "fiber #%d returned by the run queue with no wake-up pending", i);
     G[i].pend = 0;
